@@ -1236,7 +1236,9 @@ class CryptContext:
         # convert numbers to strings
         elif isinstance(value, numeric_types):
             if isinstance(value, float) and key[2] == "vary_rounds":
-                value = (f"{value:.2f}").rstrip("0") if value else "0"
+                # NOTE: repr() is the shortest text that reads back as the same float
+                #       (two fixed decimals turned 0.001 into "0." and 0.125 into "0.12").
+                value = repr(value) if value else "0"
             else:
                 value = str(value)
 
